@@ -79,6 +79,23 @@ func c18Value(f universe.Field, side string, salt string, variant int) reflect.V
 				if !isTo {
 					v = ap.ItemCollection{same("x"), same("y")}
 				}
+			case 4: // lists on both sides of a single-item property
+				v = ap.Item(ap.ItemCollection{same("x")})
+				if !isTo {
+					v = ap.ItemCollection{same("y"), same("z")}
+				}
+			case 5: // struct values (not pointers) on both sides
+				v = ap.Item(ap.Object{ID: same("x"), Type: ap.NoteType})
+				if !isTo {
+					v = ap.Object{ID: same("y"), Type: ap.NoteType}
+				}
+			case 6: // IRI lists on both sides
+				v = ap.Item(ap.IRIs{same("x")})
+				if !isTo {
+					v = ap.IRIs{same("y")}
+				}
+			case 7: // the very same pointer on both sides
+				v = ap.Item(c18SharedObject)
 			default:
 				return reflect.Value{}
 			}
@@ -243,6 +260,8 @@ func c18Value(f universe.Field, side string, salt string, variant int) reflect.V
 	}
 	return reflect.ValueOf(v)
 }
+
+var c18SharedObject = &ap.Object{ID: "https://example.com/same/shared", Type: ap.NoteType}
 
 type c18Kind struct {
 	name   string
